@@ -16,6 +16,7 @@ def templates(tier):
           ('hex-32-digits', T('0x' + 'f' * 31, 2), 33),
           ('binary-128-digits', T('0b' + '1' * 127, 2), 129),
           ('unicode-escape', T('"\\u{10FFF', 3), 9),
+          ('unicode-nine-digits', T('"\\u{FFFFFFF', 3), 11),
           ('hex-escape', T("'\\x", 3), 3),
           ('dense-errors', T('@#$`~?', 2), 6)]
     if tier != 'quick':
